@@ -286,7 +286,7 @@ def chunk_choices(n):
 
 def frame_spec(r: random.Random, mx=None, rows=None, nch=None, sources=('inline', 'dict', 'struct', 'hdf5'),
                casts=False, fills=('pos', 'rand', 'special'), layouts=LAYOUTS, orders='<>=', index=False,
-               window=False, nframes=1, dtypes=DTYPES, max_width=None) -> dict:
+               window=False, nframes=1, dtypes=DTYPES, max_width=None, mixed_inline=False) -> dict:
     """Random valid spec: origin + nframes frames with their own channels and data."""
     mx = mx or r.choice([64, 128, 512, 8192, 8192, 16384])
     cap = mx - 8
@@ -332,6 +332,12 @@ def frame_spec(r: random.Random, mx=None, rows=None, nch=None, sources=('inline'
         sp['ops'].append(frame_op(f'FRAME{f}', idxs, **fattrs))
     w = {'source': source, 'input_chunk_size': r.choice(chunk_choices(n)),
          'output_chunk_size': r.choice([mx, 2 * mx, 2 ** 16])}
+    if source == 'dict' and mixed_inline:
+        # some channels carry inline data, the rest comes through the dict passed to write()
+        chan_ops = [o for o in sp['ops'] if o['op'] == 'channel']
+        for o in chan_ops[1:]:
+            if r.random() < 0.4:
+                o['force_inline'] = True
     if source != 'inline':
         w['perm_seed'] = r.choice([None, r.randrange(1000)])
         w['extra'] = r.choice([0, 0, 1, 3])
